@@ -169,6 +169,25 @@ fn gen_limit(seed: u64, which: u64) -> Value {
         v["limit"] = json!(format!("entry store tail of exactly {target} bytes"));
         return v;
     }
+    if which % 8 == 4 {
+        // an array one byte longer than an array length can say (0x1000000 bytes), in a plain or an indexed value store
+        let st = StoreDef {
+            n: 3,
+            common: vec![PDef { name: "big".into(), kind: PKind::Array { prefix: *rng.pick(&[0u8, 1, 4]), store: 0 }, col: Col::ArrHuge }, PDef { name: "id".into(), kind: PKind::UInt, col: Col::Seq }],
+            variants: vec![],
+            sort: None,
+            unique_keys: false,
+        };
+        // (kept whole in an indexed store, prefix 0, such an array needs no length and is representable)
+        let indexed = rng.chance(1, 2);
+        let by_key_only = indexed && matches!(st.common[0].kind, PKind::Array { prefix: 0, .. });
+        let case = DirCase { seed: rng.next(), vstores: vec![indexed], stores: vec![st], indexes: vec![IndexDef { name: "index0".into(), store: 0, offset: 0, count: 3 }], defer: 0, free: 0 };
+        let mut v = case.to_json();
+        v["via"] = json!("mem");
+        v["expect"] = json!(if by_key_only { "representable" } else { "unrepresentable" });
+        v["limit"] = json!("array of 0x1000000 bytes");
+        return v;
+    }
     let (case, expect, why) = match which % 4 {
         0 | 1 => {
             // indexed value store with n distinct 9-byte values: tail = 10 + w + w*(n-1) bytes, w = 3 for these sizes
